@@ -178,6 +178,19 @@ class IntMode:
         if op in ('==', '!='):
             if isinstance(a.t, int) and isinstance(b.t, int):
                 return (a.t == b.t) if op == '==' else (a.t != b.t)
+        if op == '^':
+            if isinstance(a.t, int) and isinstance(b.t, int):
+                return iv(a.t ^ b.t)
+            if isinstance(a.t, int):
+                a, b = b, a
+            # exclusive or of single bits (carry / borrow flags): x ^ 1 = 1 - x, x ^ 0 = x, x ^ y = x + y - 2k with k = x and y
+            if a.hi <= 1 and a.lo >= 0 and isinstance(b.t, int) and b.t in (0, 1):
+                return a if b.t == 0 else IV(1 - a.t, 1 - a.hi, 1 - a.lo, None)
+            if a.hi <= 1 and a.lo >= 0 and b.hi <= 1 and b.lo >= 0:
+                r = self.fresh('xbit', 0, 1)
+                k = self.fresh('xand', 0, 1)
+                self.eqs.append(a.t + b.t == r.t + 2 * k.t)
+                return r
         raise Unsupported('integer mode: operator %s' % op)
 
     def unop(self, op, a):
